@@ -82,7 +82,20 @@ def handle (line : String) : String :=
     | some B =>
       match symExec B .init with
       | some S => s!"{S.base} {S.stk.length}"
-      | none => "ext"
+      | none =>
+        -- blocks with external operations: the stack need by counting operands and results
+        let ar : Instr → Nat × Nat := fun i => match i with
+          | .push _ | .pushSym _ | .env0 _ => (0, 1)
+          | .dup k => (k, k + 1) | .swap k => (k + 1, k + 1) | .pop => (1, 0)
+          | .un _ | .env1 _ | .mload | .sload => (1, 1)
+          | .bin _ | .keccak => (2, 1) | .ter _ => (3, 1)
+          | .mstore | .mstore8 | .sstore => (2, 0)
+          | .ext _ n o => (n, if o then 1 else 0)
+        let (need, _) := B.foldl (fun (acc : Nat × Nat) i =>
+          let (need, cur) := acc
+          let (c, p) := ar i
+          if c > cur then (need + (c - cur), p) else (need, cur - c + p)) (0, 0)
+        s!"{need} ext"
     | none => "error:parse"
   | ["SPECCHK", block, src, tgt, instrs, deps, scheds] => Spec.handleSpecChk2 norm3 block src tgt instrs deps scheds
   | ["SPECRUN", seed, stack, block, src, tgt, instrs, deps, sched] => Spec.handleSpecRun seed stack block src tgt instrs deps sched
